@@ -13,6 +13,16 @@ CLAIMS = {
   text="Decides, for every path of the anchored functions in /repo's current source, the structural clauses that are necessary for C01: (a) every factor computation, cache store and factor use in _get_conversion_factor/_convert is dominated by the comparison of the two dimensionalities and the mismatch edge only leads to a DimensionalityError; the facet _convert overrides reach every normal exit through super()._convert; (b) the compatibility predicates (Quantity/Unit.is_compatible_with, Quantity.check, registry_helpers.check, compatible-unit listing) derive their verdict from == on _get_dimensionality values (or from to() raising DimensionalityError when contexts are involved); (c) the dimensionality memo is stored under the key it is looked up with and cannot keep '[]' or zero exponents. It does not decide that _get_dimensionality_recurse computes the right exponents nor any concrete unit pair - that needs execution.",
   note="Trusted: CPython ast; /verif/sa resolver (MRO verified equal to runtime __mro__ at build time), CFG construction (exception edges from calls/raise/assert/yield; implicit exceptions such as KeyError from subscripts are not modelled). Unknown verdict shapes give exit 2 (ANALYSIS-ERROR), never a violation.",
   ref="DESIGN.md §4 C01"),
+ "C12": dict(
+  technique="static analysis: acquire/release pairing on the CFG with exception edges (G-PAIR), must-pass-through, may-raise summaries over resolved callees, who-may-write (ast-based, repository-specific)",
+  text="Decides, for every normal and exceptional path of the anchored functions, the structural clauses necessary for C12: after ContextChain.insert_contexts in enable_contexts every exceptional exit passes remove_contexts(len(<the inserted tuple>)), a second cache/overlay switch and a re-raise; context() yields inside try/finally whose finally disables len(names) contexts and keeps enable_contexts outside the try; with_context calls the function inside `with self.context(...)`; disable_contexts = remove(n) then switch; _switch_context_cache_and_units drops the overlay maps on every path, installs the cache of the active combination, layers overlays on the base cache keyed by ContextChain.hashable() (which must cover name, aliases, funcs, defaults, redefinitions), applies redefinitions oldest-first into an overlay map with the overlay cache installed and restores _on_redefinition in a finally; the base-units memo is validated against the switched cache; Context.from_context writes only the fresh copy and lets passed defaults override declared ones. It does not decide equality of the registry's observable answers before/after a sequence of operations (a history property that needs execution).",
+  note="Trusted: CPython ast; CFG exception edges are generated for statements containing a call/raise/assert/yield (implicit exceptions from subscripts/attribute access are not modelled); may-raise summaries follow explicit raise statements through resolved callees only.",
+  ref="DESIGN.md §4 C12"),
+ "C13": dict(
+  technique="static analysis: memo-site discovery by idiom plus key/guard/hit/invalidation rules (G-MEMO) over CFG paths and write summaries; who-may-write inventory of process-wide tables (ast-based, repository-specific)",
+  text="Decides the structural clauses necessary for cache transparency, for every memo site of the registry and its objects and every post-construction writer of their dependencies: KEY (lookup key == store key == compute argument; conversion_factor orientation src/dst; overlays keyed by ContextChain.hashable() covering all Context fields), GUARD (write guard equals read guard for parse_unit/as_delta and _base_units_cache/check_nonmult+default system), HIT (a cache loaded from disk is installed; miss paths return what they store; save after build), INV (default_system setter resets on every path; the context switch swaps self._cache and drops overlays on every path; identity-validated memos _base_units_cache vs self._cache and Quantity._dimensionality vs self._units are validated before every read and reset on the stale edge; Group/System membership writers call invalidate_members which propagates to parents and systems; ContextChain._graph reset by every editor of maps/contexts; adders drop the cached parse of the spelling they store; writers of the process-wide format table clear the lru_cached _split_format; Unit._units only written in __init__), FILL (dimensional_equivalents: reported as KNOWN-FINDING, see known_findings.json), and the writer inventory of module-level mutable tables. It does not compare any answer with that of a fresh registry - that needs execution.",
+  note="Trusted: CPython ast; /verif/sa CFG and write summaries (mutating-method list in sa/flow.py). Memo idioms outside the recognised set are listed in evidence as untriaged, not proved. The lazily registered prefixed units in _units are covered by C08.",
+  ref="DESIGN.md §4 C13, Appendix B"),
 }
 
 REASONS_PENDING = "rule pack under construction (see DESIGN.md §4); not claimed yet"
